@@ -18,12 +18,16 @@ must keep building when a proof breaks).
     - the sizes of struct/union arguments of calls are not negative; a call of the builtin `alloca` is
       not of type long double and neither is its argument;
     - the labels the node defines are parser labels (`userLabel`), its jump targets are spelled `.…`.
+* `labsN`, `treeDistinct` — the parser's labels of a tree (all regions) and the decidable statement that
+  they are pairwise distinct: a fact about the TREE (each ND_FOR/ND_DO/ND_SWITCH/ND_CASE/ND_LABEL gets its
+  own `new_unique_name()` in parse.c), evaluated on every dumped function; Lemmas/C20TreeLabels.lean
+  derives `userDistinct` of the generated code from it.
 * `labelNames`, `labelsDistinct` — the labels a piece of code defines, and the decidable statement
   that they are pairwise distinct, distinct from the function's return label and not of the shape
   `.L.return.*`.  Lemmas/C20Fresh.lean proves it for generated code from the monotone label counter
   `count()` and `userDistinct` (the labels that come from the parser are emitted once each).
 * `verifyL` — `Effect.verify` without the range check (`rsp ≤ 0`, `0 ≤ x87 ≤ 8`): the label-height
-  discipline alone.  `Effect.checkBody ls = ok` implies `verifyL (inferN 3 …) (steps ls) (some 0) = ok`.
+  discipline alone.  `Effect.checkBody ls = ok` implies `verifyL (inferred …) (steps ls) (some 0) = ok`.
 -/
 import ChibiVerif.Model.Codegen
 import ChibiVerif.Model.Effect
@@ -159,6 +163,36 @@ def labelNames : List Step → List String
 /-- the labels of the code that come from the parser (`userLabel`) are pairwise distinct -/
 def userDistinct (ls : List Asm.Line) : Bool :=
   decide ((labelNames (ls.flatMap classify)).filter userLabel).Nodup
+
+/-! ## the parser's labels, on the tree -/
+
+mutual
+/-- every label the code of a node defines that comes from the parser — the `break`/`continue` labels
+    of loops and switches, `case`/`default` labels, labelled statements — in ALL regions (nested
+    statement expressions included), each as often as the tree mentions it.  `parse.c` gives every such
+    node its own `new_unique_name()`; that the list has no repetition is a decidable fact about the
+    dumped tree (`treeDistinct`), evaluated on every function of every dump. -/
+def labsN : Node → List String
+  | .null | .nullExpr _ | .num .. | .var .. | .memzero .. | .labelVal .. | .vlaPtr .. | .goto_ .. | .asm_ .. => []
+  | .neg _ a | .deref _ a | .not _ a | .bitnot _ a | .cast _ a | .member _ a _ | .addr _ a | .gotoExpr _ a
+  | .exprStmt _ a | .ret _ a => labsN a
+  | .assign _ a b | .comma _ a b | .binop _ _ a b | .logand _ a b | .logor _ a b | .exch _ a b => labsN a ++ labsN b
+  | .cond _ a b c | .cas _ a b c | .if_ _ a b c => labsN a ++ (labsN b ++ labsN c)
+  | .funcall _ f _ _ args => labsN f ++ labsL args
+  | .stmtExpr _ body | .block _ body => labsL body
+  | .for_ _ init c inc t brk cont => labsN init ++ (labsN c ++ (labsN inc ++ (labsN t ++ [cstr cont, cstr brk])))
+  | .do_ _ t c brk cont => labsN t ++ (labsN c ++ [cstr cont, cstr brk])
+  | .switch_ _ c t brk _ _ => labsN c ++ (labsN t ++ [cstr brk])
+  | .case_ _ _ _ lbl lhs => cstr lbl :: labsN lhs
+  | .label _ _ ul lhs => cstr ul :: labsN lhs
+def labsL : NodeList → List String
+  | .nil => []
+  | .cons n rest => labsN n ++ labsL rest
+end
+
+/-- the parser's labels of the tree are pairwise distinct (each loop, switch, `case` and labelled
+    statement has a label of its own) -/
+def treeDistinct (n : Node) : Bool := decide ((labsN n).filter userLabel).Nodup
 
 /-- the labels the code defines are pairwise distinct, distinct from `ret`, none spelled `.L.return.*` -/
 def labelsDistinct (ret : String) (ls : List Asm.Line) : Bool :=
